@@ -10,7 +10,7 @@ for f in glob.glob(src+"/demo%s*"%k):
     if os.path.isdir(f): shutil.copytree(f,dst+"/"+os.path.basename(f),dirs_exist_ok=True)
     else: shutil.copy(f,dst+"/"+os.path.basename(f).replace("_test.go","_test.go.txt"))
 if os.path.exists(src+"/README%s.txt"%k): shutil.copy(src+"/README%s.txt"%k,dst+"/README.txt")
-meta={"property":ID,"seed":int(k),"origin":"independent sub-agent given only the property text and a scratch worktree",
+meta={"property":ID[:3],"round":(2 if ID.endswith("b") else 1),"seed":int(k),"origin":"independent sub-agent given only the property text and a scratch worktree",
  "needs_to_manifest":needs,
  "demo":{"package_dir":pkg,"test":tn,"file":"demo%s_test.go.txt (rename to *_test.go inside package_dir)"%k},
  "confirmed":"in scratch worktree /tmp/seed/%s via /verif/seedrun.sh: demo passes on the unchanged tree, fails with patch.diff applied; go build ./... and the existing tests of the touched packages and the root package pass with the patch"%ID,
